@@ -721,6 +721,7 @@ int gd_hide(DIRFILE *D, const char *field_code) gd_nothrow
     else if (!(E->flags & GD_EN_HIDDEN)) {
       E->flags |= GD_EN_HIDDEN;
       D->fragment[E->fragment_index].modified = 1;
+      D->flags &= ~GD_HAVE_VERSION;
 
       /* Invalidate the field lists of the containing list */
       if (E->e->n_meta == -1) {
@@ -779,6 +780,7 @@ int gd_unhide(DIRFILE *D, const char *field_code) gd_nothrow
     else if (E->flags & GD_EN_HIDDEN) {
       E->flags &= ~GD_EN_HIDDEN;
       D->fragment[E->fragment_index].modified = 1;
+      D->flags &= ~GD_HAVE_VERSION;
 
       /* Invalidate the field lists of the containing list */
       if (E->e->n_meta == -1) {
